@@ -105,6 +105,21 @@ def run(ctx):
                     ctx.problem('oracle', 'Signomial.hess_val differs from the closed form', inputs={'f': str(rows), 'x': x.tolist()},
                                 failing_input_found=True)
                     return
+        # the same array object, modified IN PLACE, asked again: derivatives at the new point (no stale intermediate results)
+        x += 0.75
+        x[0] = -x[0]
+        gv2, hv2 = f.grad_val(x), f.hess_val(x)
+        ex2 = [math.exp(float(np.dot(np.array([float(v) for v in a]), x))) for a, _ in frows]
+        for ii in range(n):
+            want = sum(float(c * a[ii]) * e for (a, c), e in zip(frows, ex2))
+            tolg = 1e-12 * (1 + sum(abs(float(c * a[ii])) * e for (a, c), e in zip(frows, ex2)))
+            wanth = [sum(float(c * a[ii] * a[kk]) * e for (a, c), e in zip(frows, ex2)) for kk in range(n)]
+            tolh = [1e-12 * (1 + sum(abs(float(c * a[ii] * a[kk])) * e for (a, c), e in zip(frows, ex2))) for kk in range(n)]
+            if abs(gv2[ii] - want) > tolg or any(abs(hv2[ii, kk] - wanth[kk]) > tolh[kk] for kk in range(n)):
+                ctx.problem('oracle', 'after the query point was changed in place, Signomial.grad_val / hess_val on the same array object return '
+                            '%r / %r; at the new point the derivatives are %r / %r' % (gv2[ii], hv2[ii].tolist(), want, wanth),
+                            inputs={'f': [[[str(v) for v in a], str(c)] for a, c in rows], 'x_after_update': x.tolist()}, failing_input_found=True)
+                return
         # ---- shift_coordinates
         x0 = [Fraction(ctx.rng.randint(-2, 2), 2) for _ in range(n)]
         fs = f.shift_coordinates(np.array([float(v) for v in x0]))
